@@ -22,7 +22,7 @@ def pure_function(name, result_kind, nargs=1, facts=None):
   return spec
 
 
-def effectful(name, result_kind='val', may_raise=('Exception',), log=True):
+def effectful(name, result_kind='val', may_raise=('Exception',), log=True, havoc=()):
   """Arbitrary user code: logged call, arbitrary result of the given kind, may raise the listed exception classes."""
   kind = parse_kind(result_kind)
 
@@ -30,6 +30,10 @@ def effectful(name, result_kind='val', may_raise=('Exception',), log=True):
     out = []
     if log:
       ex.event(st, ('call', name, fn.t, tuple(pos)))
+    if '*pre-existing' in havoc:
+      havoc_preexisting(ex, st)
+    elif havoc:
+      ex.havoc_heap(st, list(havoc))
     exits = [None] + list(may_raise)
     for n, e in enumerate(exits):
       s = st.fork() if n < len(exits) - 1 else st
@@ -43,3 +47,18 @@ def effectful(name, result_kind='val', may_raise=('Exception',), log=True):
         out.append((s, Raised(exc)))
     return out
   return spec
+
+
+def havoc_preexisting(ex, st):
+  """Arbitrary user code ran: every field / container content of objects that existed before this activation may
+  have changed; objects allocated by the verified activation (refs >= ALLOC_BASE) are unreachable for it, unless they
+  were stored into a pre-existing object (not tracked: escape analysis is the contract author's obligation)."""
+  from pyvc.state import ALLOC_BASE
+  r = z3.Int('hp_r')
+  for key in list(st.heap):
+    old = st.heap[key]
+    new = fresh('HP_%s_%s' % key, old.sort())
+    st.heap[key] = new
+    st.axiom(z3.ForAll([r], z3.Implies(r >= ALLOC_BASE, z3.Select(new, r) == z3.Select(old, r))))
+    if old.sort().range() == z3.IntSort() and key[1] not in ('len',):
+      st.axiom(z3.ForAll([r], z3.Implies(r < ALLOC_BASE, z3.And(z3.Select(new, r) >= 0))))
